@@ -199,6 +199,25 @@ impl Twin {
                     refs.push(rp.value);
                 }
             }
+            // (a step function as easing is discontinuous: the value may be the reference a few
+            // ulps of the time to either side - see core_sim's reference_mismatch)
+            if !ok && m.parts.iter().any(|p| p.uses_easing(CUSTOM_STEPS)) {
+                'outer: for pos in candidates {
+                    let t = pos.as_secs_f64() as f32;
+                    for k in [1u32, 2, 4, 8] {
+                        for t2 in [f32::from_bits(t.to_bits().saturating_sub(k)), f32::from_bits(t.to_bits() + k)] {
+                            if t2.is_finite() && t2 >= 0.0 {
+                                if let Some(rp) = &oracle::ref_eval(m, self.start.as_ref(), t2)[prop] {
+                                    if rp.near_boundary || oracle::ref_matches(actual, rp, 1e-4) {
+                                        ok = true;
+                                        break 'outer;
+                                    }
+                                }
+                            }
+                        }
+                    }
+                }
+            }
             if !ok {
                 return Some(format!(
                     "{} is {actual:?}; the documented timeline semantics give {refs:?} at positions {candidates:?} (started from {})",
